@@ -240,7 +240,8 @@ var loadBalancingVariables = map[string]bool{
 	"remote_addr": true,
 }
 
-var hashMethodRegexp = regexp.MustCompile(`^hash (\S+)(?: consistent)?$`)
+// the key is one NGINX word: no whitespace, no ';', no quotes, no backslash, no '#', curly braces only around the name of a ${variable}
+var hashMethodRegexp = regexp.MustCompile(`^hash ((?:[^\s;{}\\"'#]|\$\{[^\s;{}\\"'#]*\})+)(?: consistent)?$`)
 
 func validateHashLoadBalancingMethod(method string, fieldPath *field.Path, isPlus bool) field.ErrorList {
 	matches := hashMethodRegexp.FindStringSubmatch(method)
